@@ -93,6 +93,10 @@ def c11(run):
                 "ending inside a block; plus seeded random partitions of <= 12 real intervals with queries on all "
                 "end point +-1 pairs and full-alphabet scans; non-trivial = distinct record with >= 2 intervals")
     run.assumptions = list(PART_ASSUME)
+    run.model("MC_CoverSearch", "MC_CoverSearch_full.cfg" if run.tier == "thorough" else "MC_CoverSearch.cfg",
+              workers=workers(run), timeout=1500,
+              note="PlusCal transcription of class_of_char and interval_cover (the two binary searches) = set-theoretic "
+                   "ClassOf / Cover on every partition of 0..5 (0..6) x every character x every query set; region lemma for Cover")
     out, out2 = _partition_traces(run, 1000000)
     nt = lambda r: len(r.get("ivs", [])) >= 2
     def cov(kind):
@@ -122,6 +126,11 @@ def c12(run):
                 "obligations (a)-(e) of DESIGN 5 C12 and the literal reading (f) with structural identification of "
                 "the representation finding; non-trivial = distinct record whose operands are both non-empty")
     run.assumptions = list(PART_ASSUME)
+    run.model("MC_MergeSweep", "MC_MergeSweep_full.cfg" if run.tier == "thorough" else "MC_MergeSweep.cfg",
+              workers=workers(run), timeout=1500,
+              note="PlusCal transcription of merge_partitions (two-finger sweep with carried triples, push with witness "
+                   "update) satisfies obligations (a)-(e) on every ordered pair of partitions of 0..4 (0..5); the literal "
+                   "reading fails only on separated pairs")
     out, out2 = _partition_traces(run, 1 if run.tier == "thorough" else 40)
     nt = lambda r: (r.get("op") == "merge" and r["p1"] and r["p2"]) or (r.get("op") == "mergelist" and len(r["ps"]) >= 2)
     need = {"merge": lambda r: r.get("op") == "merge", "mergelist": lambda r: r.get("op") == "mergelist",
@@ -652,7 +661,8 @@ def all_u1(ids):
     """Run every design-level model (no implementation in the loop)."""
     models = [("MC_Chars", "MC_Chars.cfg"), ("MC_Regex", "MC_Regex.cfg"), ("MC_Literals", "MC_Literals.cfg"),
               ("MC_Strings", "MC_Strings.cfg"), ("MC_LoopRanges", "MC_LoopRanges.cfg"), ("MC_Dfa", "MC_Dfa.cfg"),
-              ("MC_PartGen", "MC_PartGen.cfg"), ("MC_Builder", "MC_Builder.cfg"), ("MC_Manager", "MC_Manager.cfg")]
+              ("MC_PartGen", "MC_PartGen.cfg"), ("MC_Builder", "MC_Builder.cfg"), ("MC_Manager", "MC_Manager.cfg"),
+              ("MC_Hopcroft", "MC_Hopcroft.cfg"), ("MC_CoverSearch", "MC_CoverSearch.cfg"), ("MC_MergeSweep", "MC_MergeSweep.cfg")]
     bad = 0
     for m, c in models:
         if ids and m not in ids:
